@@ -391,6 +391,10 @@ class Gen:
         if sh == "anchor":
             return "nums", [ch.choice([0, 1, 0.5, 0.25]), ch.choice([0, 1, 0.5, 0.75])]
         if sh == "hex":
+            if ch.chance(1, 6):
+                # the schema's pattern also admits 4 and 7 hex digits; the grammar does not lex those as colours, so they are
+                # plain strings (kept verbatim, whatever the quote character)
+                return "str", "#" + "".join(ch.choice("0123456789abcdefABCDEF") for _ in range(ch.choice([4, 7])))
             return "hex", self.hexcolor()
         if sh == "bind":
             return "bind", "[" + ch.choice(BIND_NAMES) + "]"
